@@ -9,6 +9,7 @@
 //!   `ConnectionRecord`s, the address set and the transport set it stores), then any sequence of
 //!   calls of its eight methods; after every call the result and the whole state are recorded.
 //!   Every run starts with the exhaustive table: every shape x every event class, one call each.
+//! * tags 9603 / 9604 — real sockets: see c06_sock.rs (real transports) and c06_e2e.rs (complete nodes).
 //! * tag 9602 — the manager stream of c05.rs (`--focus limits` generator, crowd shapes and all),
 //!   wrapped: after every step the log of the calls the manager made on its `ConnectionLimits`
 //!   (method, arguments, result, in order) is appended, and the scripted transports return an
@@ -27,12 +28,15 @@ pub const TAG_WRAPPED: u64 = 9602;
 #[path = "c06_sock.rs"]
 mod sock;
 
+#[path = "c06_e2e.rs"]
+mod e2e;
+
 thread_local! {
     static WRAP: Cell<bool> = const { Cell::new(false) };
 }
 
 pub fn is_tagged(c: &[u64]) -> bool {
-    matches!(c.first(), Some(&TAG_LIMITS) | Some(&TAG_PEER) | Some(&TAG_WRAPPED) | Some(&sock::TAG_SOCK))
+    matches!(c.first(), Some(&TAG_LIMITS) | Some(&TAG_PEER) | Some(&TAG_WRAPPED) | Some(&sock::TAG_SOCK) | Some(&e2e::TAG_E2E))
 }
 
 /// Called by `apply` at the end of every manager step: the calls made on ConnectionLimits during it.
@@ -739,6 +743,10 @@ impl Streams {
                 Some((tr, conns)) => (c.to_vec(), sock::run(tr, &conns)),
                 None => (c.to_vec(), vec![0]),
             },
+            e2e::TAG_E2E => match e2e::dec_case(c) {
+                Some((mi, mo, ops)) => (c.to_vec(), e2e::run(mi, mo, &ops)),
+                None => (c.to_vec(), vec![0]),
+            },
             _ => wrapped_stored(rt, c),
         }
     }
@@ -748,6 +756,7 @@ impl Streams {
         let mut v = limits_table();
         v.extend(peer_table(&self.peers));
         v.extend(sock::table());
+        v.extend(e2e::table());
         v
     }
 
@@ -755,6 +764,10 @@ impl Streams {
         // real sockets are slow (handshakes, 150 ms of watching every accepted connection)
         if i % (if thorough { 2000 } else { 250 }) == 77 {
             return sock::generated(rng);
+        }
+        // complete nodes are slower still
+        if i % (if thorough { 4000 } else { 500 }) == 133 {
+            return e2e::generated(rng);
         }
         match i % 8 {
             3 => limits_generated(rng, thorough),
